@@ -308,6 +308,14 @@ def install_noise():
                 return HW.WANoiseProtocolHandshakeWorker._coop_orig_start(self)
             t = c.spawn(self.run)
             t.worker = self
+            self._coop_task = t
             c.yield_()          # starting a thread is a scheduling point: the new thread may run before start() returns
             return None
         HW.WANoiseProtocolHandshakeWorker.start = start
+        orig_alive = HW.WANoiseProtocolHandshakeWorker.is_alive
+
+        def is_alive(self):
+            # (the stand-in answers what the thread object would: started and not yet finished)
+            t = getattr(self, "_coop_task", None)
+            return (not t.done) if t is not None else orig_alive(self)
+        HW.WANoiseProtocolHandshakeWorker.is_alive = is_alive
